@@ -795,7 +795,13 @@ class Program:
                     return t
             return None
         if isinstance(e, ast.IfExp):
-            return self.etype(e.body, f, env) or self.etype(e.orelse, f, env)
+            a, b = self.etype(e.body, f, env), self.etype(e.orelse, f, env)
+            # `{} if c else {k: C(k) ...}`: an empty literal carries no element type; take the informative branch
+            def informative(t):
+                return t is not None and not (t[0] in ("Dict", "List") and t[-1] is None)
+            if a and b and a[0] == b[0] and not informative(a) and informative(b):
+                return b
+            return a or b
         if isinstance(e, (ast.List, ast.ListComp)):
             if isinstance(e, ast.List) and e.elts:
                 return ("List", self.etype(e.elts[0], f, env))
@@ -860,6 +866,32 @@ class Program:
                 return self._class_targets(q)
             if q:
                 return ["ext:" + q]
+            # a local name bound to function objects:  build = _a if cond else _b ; build(x)
+            g = f
+            binds = []
+            while g is not None and not binds:
+                binds = [n for n in walk_no_nested(g.node) if isinstance(n, ast.Assign) and any(isinstance(t, ast.Name) and t.id == fn.id for t in n.targets)]
+                g = g.outer
+            if binds:
+                refs, ok = [], True
+                for b in binds:
+                    work = [b.value]
+                    while work:
+                        v = work.pop()
+                        if isinstance(v, ast.IfExp):
+                            work += [v.body, v.orelse]
+                            continue
+                        q2 = self.resolve_name_expr(v, m) if isinstance(v, (ast.Name, ast.Attribute)) else None
+                        if q2 in self.funcs:
+                            refs.append(q2)
+                        elif q2 in self.classes:
+                            refs += self._class_targets(q2)
+                        else:
+                            ok = False
+                if ok and refs:
+                    return sorted(set(refs))
+                if fn.id not in env:
+                    return ["call-of:" + fn.id]
             if fn.id in env:
                 return ["unk:" + fn.id]
             for st in m.tree.body:
